@@ -2,7 +2,7 @@
 import itertools
 
 from .. import core, grids
-from ..framework import Stage
+from ..framework import Model, Stage
 from . import algo_common as ac
 
 PID = "C19"
@@ -306,6 +306,15 @@ def multiples_cases(rng):
 
 def _nt(rec):
     return True
+
+
+def models(tier):
+    # 2.6 million pairs: three minutes; thorough tier only
+    if tier != "thorough":
+        return []
+    return [Model("SchemeEquiv", "SchemeEquiv.cfg", "the equivalence loop of the library transcribed with exact fractions "
+                  "(first non-null quotient kept, mismatch or one-sided null entry refused) answers Scheme!Proportional on "
+                  "every pair of a family of 1610 valid schemes, for both variants (3 and 6 entries)", timeout=3000)]
 
 
 def stages(tier, rng, only=None):
